@@ -9,20 +9,25 @@ from . import common as C
 from . import rhs_lib as L
 from . import ode_oracles as O
 from .c08 import report, TOL
+from . import rhs2_spec as S2
 
 CLAIM = dict(
     text="Machine-checked theorems (coq/Props/C07.v, closed under the global context) over right-hand sides GENERATED from EoN/analytic.py on every run: "
          "on a single degree class k (regular graph) heterogeneous mean-field SIS = homogeneous mean-field SIS with n=k, compact pairwise SIS/SIR = homogeneous "
          "pairwise SIS/SIR with n=k (Phi o rhs_big = rhs_small o Phi); EBCM -> super-compact pairwise under SS=N psihat'(theta) phi_S, SI=N psihat'(theta) phi_I and "
          "compact pairwise -> super-compact pairwise under S_k=N c_k theta^k (both _partial: the chain rule is written out, not derived).  Translation tied by point "
-         "evaluation.  VALIDATED NUMERICALLY ONLY (oracles on the real entry points, tolerance 1e-4*N): EBCM = compact pairwise = super-compact pairwise = effective degree "
-         "= compact effective degree on random degree distributions with uniform rho; EBCM_pref_mix (continuous, discrete) = EBCM under uncorrelated mixing; on regular "
-         "graphs of several degrees heterogeneous pairwise = compact pairwise = pair-based = homogeneous pairwise and heterogeneous mean-field = individual-based = "
-         "homogeneous mean-field, SIS and SIR.",
+         "evaluation.  ALSO PROVED, over hand-written models of the node-level and 2-D right-hand sides (coq/Model/Rhs2D.v; on every run translate/rhs2d2v.py, fail-closed, regenerates coq/Gen/Rhs2.v from the source and the theorems *_generated_* re-prove generated definition = model; model and generated definition are also point-evaluated against the code, >=200 points per function): on a d-regular simple graph with uniform rates the symmetric subspace (all X_i equal, all Y_i equal, <X_iY_j>, <X_iX_j> equal on edges) is "
+         "invariant and Phi o rhs_big = rhs_small o Phi with n=d for individual-based -> homogeneous mean-field and pair-based -> homogeneous pairwise (SIS and SIR, for every such "
+         "graph and every N), and heterogeneous pairwise with a single degree class k = homogeneous pairwise with n=k (SIS and SIR).  VALIDATED NUMERICALLY ONLY (oracles on the real entry points, tolerance 1e-4*N): EBCM = compact pairwise = super-compact pairwise = effective degree "
+         "= compact effective degree on random degree distributions with uniform rho; EBCM_pref_mix (continuous, discrete) = EBCM under uncorrelated mixing; the CURVES "
+         "returned on regular graphs of several degrees (heterogeneous pairwise = compact pairwise = pair-based = homogeneous pairwise and heterogeneous mean-field = "
+         "individual-based = homogeneous mean-field, SIS and SIR: the theorems are about the vector fields, the lift is ODE uniqueness, cited).",
     design='DESIGN.md section 4, C07; section 2.4(b) (rhs2v)',
-    technique='Coq proof over translator-generated model + point-evaluation correspondence + numerical oracles (validation) for the clauses not proved',
-    note="Cited: Picard-Lindeloef uniqueness (corresponding vector fields => same curves).  effective-degree and pref-mix equivalences, the 2-D (heterogeneous pairwise) "
-         "and node-level (individual/pair based) reductions are validation only.")
+    technique='Coq proof over translator-generated model and hand-written model + point-evaluation correspondence + numerical oracles (validation) for the clauses not proved',
+    note="Cited: Picard-Lindeloef uniqueness (corresponding vector fields => same curves).  effective-degree and pref-mix equivalences and the SIR heterogeneous mean-field "
+         "reduction (chain rule) are validation only / _partial.  The node-level and 2-D reductions are proved over a hand-written model that is itself proved equal, on every run, to the definitions "
+         "regenerated from the source (pair-based: under index_of_node = enumerate(nodelist) over a simple graph, which every caller establishes); every such theorem is also "
+         "re-evaluated numerically on the Python functions.")
 
 
 # ------------------------------------------------------------------ cases -------
@@ -171,7 +176,7 @@ def case_rhs_spec(EoN, p):
     return 'unknown theorem'
 
 
-CASES = {'equiv': case_equiv, 'prefmix': case_prefmix, 'pgf': case_pgf_vectorised, 'pure_ic': case_pure_ic, 'rhs_spec': case_rhs_spec}
+CASES = {'equiv': case_equiv, 'prefmix': case_prefmix, 'pgf': case_pgf_vectorised, 'pure_ic': case_pure_ic, 'rhs_spec': case_rhs_spec, 'rhs2_spec': S2.case_spec}
 
 
 def replay(rp):
@@ -258,8 +263,10 @@ def run(run, tier):
         L.regen_rhs('all'); table = L.sigs()
     except L.RhsRefused as e:
         broken.append(('translator', 'translate/rhs2v.py refuses the current EoN/analytic.py: %s' % e))
-    props = C.check_props('C07') if table else {'ok': False, 'theorems': [], 'axioms': {}, 'log': 'translator refused'}
-    if table and not props['ok']:
+    from . import rhs2_spec as S2
+    regen2 = S2.regen_phase()
+    props = (C.check_props('C07') if regen2 is None else S2.REFUSED_PROPS(regen2)) if table else {'ok': False, 'theorems': [], 'axioms': {}, 'log': 'translator refused'}
+    if table and not props['ok'] and regen2 is None:
         where = ''
         mm = re.findall(r'File "\./((?:Proofs|Props|Model|Gen)/[A-Za-z0-9]+\.v)", line (\d+)', props.get('log', ''))
         if mm:
@@ -286,6 +293,8 @@ def run(run, tier):
                 m = tie['mism'][0]
                 broken.append(('tie', 'translation is not faithful at a point: %s args=%s python=%s model=%s (%d of %d points)' % (m[0], m[1], m[2], m[3], len(tie['mism']), tie['n'])))
     found = 0; stats = {}
+    blk = S2.check_block(run, EoN, 'C07', tier, report, regen2)           # 2-D / node-level systems: own RNG stream, does not shift the cases below
+    broken += blk['broken']; found += blk['found']; n_eval += blk['n_eval']; n_distinct += blk['n_distinct']; samples += blk['samples']; dist.update(blk['dist'])
     sp = spec_points(rng, 60 if thorough else 12)
     for p in sp:
         n_eval += 1
@@ -324,14 +333,18 @@ def run(run, tier):
                      'compact effective degree on random simple graphs (16-30 nodes, degree multisets drawn from 5 families incl. degree 0 and 7, shuffled string/tuple labels), tau in {0.3,0.7,1.5}, '
                      'gamma in {0.5,1}, rho in {0.05,0.1,0.25}; EBCM_pref_mix(_discrete) with P(k\'|k)=k\'P(k\')/<k> vs EBCM(_discrete)_uniform_introduction on random degree distributions; random '
                      'd-regular graphs d in %s: homogeneous pairwise vs heterogeneous pairwise, compact pairwise, pair-based; homogeneous mean-field vs heterogeneous mean-field, individual-based; '
-                     'SIS and SIR; each theorem of Props/C07.v re-evaluated numerically on the Python right-hand sides.' % (list(degrees_of(tier)),),
+                     'SIS and SIR; each theorem of Props/C07.v re-evaluated numerically on the Python right-hand sides.  ' % (list(degrees_of(tier)),) + S2.RULE,
                      samples, {'distribution': dict(dist, oracle_cases=stats),
                                'validated_numerically_only': ['effective degree / compact effective degree vs EBCM', 'prefmix_uncorrelated (continuous and discrete)',
-                                                              'heterogeneous pairwise, pair-based, individual-based, SIR heterogeneous mean-field reductions on regular graphs',
+                                                              'SIR heterogeneous mean-field reduction on regular graphs (chain rule, _partial)',
                                                               'initial conditions built by the *_from_graph wrappers'],
+                               'proved_over_hand_written_model': ['individual-based -> homogeneous mean-field (SIS, SIR)', 'pair-based -> homogeneous pairwise (SIS, SIR)',
+                                                                  'heterogeneous pairwise on one degree class -> homogeneous pairwise and -> compact pairwise (SIS, SIR)'],
+                               'hand_written_model': 'coq/Model/Rhs2D.v (component rhs2): proved equal to the definitions generated from the source (Props: *_generated_*), both tied by point evaluation',
                                'cited': ['Picard-Lindeloef uniqueness', 'chain rule for psihat\'(theta(t)) and S_k = N c_k theta^k in the _partial theorems'],
-                               'translator': 'translate/rhs2v.py (fail-closed); generated file coq/Gen/Rhs.v'})
-    run.assumptions += ['numpy elementwise/broadcast/slice/dot semantics as modelled in Model/Vec.v (tied by point evaluation)',
+                               'translator': 'translate/rhs2v.py (fail-closed); generated file coq/Gen/Rhs.v; translate/rhs2d2v.py (fail-closed); generated file coq/Gen/Rhs2.v'})
+    run.assumptions += ['Model/Rhs2D.v is a hand-written model of the 2-D / node-level right-hand sides; its precondition is index_of_node = enumerate(nodelist) over a simple graph (what every caller in analytic.py builds)',
+                        'numpy elementwise/broadcast/slice/dot semantics as modelled in Model/Vec.v (tied by point evaluation)',
                         'scipy.integrate.odeint / ode return the ODE solution on the grid to tolerance']
 
 
